@@ -31,6 +31,7 @@ SCORES = [-0.2, 0.0, 0.1, 0.3]
 WEIGHTS = [1, 2, 5]
 ALPHAS = [0.1, 0.2, 0.3, 0.4, 0.5, 0.6, 0.7, 0.8, 0.9, 0.95]
 VALUES = [-0.5, 0.0, 0.3, 3.0]
+DISTINCT7 = [-0.5, -0.2, 0.0, 0.1, 0.3, 1.0, 3.0]
 BIGW = 10**6
 SELFCHECK_INDEX = 1
 
@@ -39,7 +40,7 @@ def bounds(tier):
     return {
         "a_n_cal": "1..4" if tier == "quick" else "1..5",
         "a_alphas": ALPHAS,
-        "b_populations": "n=4: all 35 multisets x covariate modes x alpha {0.5,0.6} (quick: monotone covariate at 0.5 only); n=5: 6 multisets (quick) / all 56 (thorough); thorough adds n=6 for 8 multisets",
+        "b_populations": "n=4: all 35 multisets x covariate modes x alpha {0.5,0.6} (quick: monotone covariate at 0.5 only); n=5: 6 multisets (quick) / all 56 (thorough); n=6 at alpha 0.7 (exactly the minimum): 3 (quick) / 8 (thorough) populations x 5040 orderings",
     }
 
 
@@ -64,17 +65,23 @@ def cases(tier, seed):
         for cov_mode in ("none", "monotone") if tier == "thorough" else ("none",):
             for alpha in (0.5, 0.6):
                 out.append({"kind": "coverage", "pop": list(pop), "cov": cov_mode, "alpha": alpha, "n": 5})
-    if tier == "thorough":
-        pops6 = [p for p in itertools.combinations_with_replacement(range(len(VALUES)), 7) if len(set(p)) == 4][::3][:8]
-        for pop in pops6:
-            out.append({"kind": "coverage", "pop": list(pop), "cov": "none", "alpha": 0.7, "n": 6})
+    # n = 6 is exactly the minimum for the default level 0.7 (one training unit, five calibration units): 5040 orderings per
+    # population, split into 16 chunks that are summed up in post()
+    pops6 = [p for p in itertools.combinations_with_replacement(range(len(VALUES)), 7) if len(set(p)) == 4]
+    pops6 = pops6[::3][:8] if tier == "thorough" else pops6[::7][:2]
+    for pop in pops6:
+        for k in range(16):
+            out.append({"kind": "coverage", "pop": list(pop), "cov": "none", "alpha": 0.7, "n": 6, "chunk": [k, 16]})
+    # all values distinct: no ties to inflate coverage, the conformal bound is then tight
+    for k in range(16):
+        out.append({"kind": "coverage", "pop": "distinct7", "cov": "none", "alpha": 0.7, "n": 6, "chunk": [k, 16]})
     return out
 
 
 def describe(case):
     if case["kind"] == "calib":
         return {"kind": "calib", "n_sets": len(case["sets"]), "first_set_(score_index,weight)": case["sets"][0]}
-    return dict(case, pop=[VALUES[i] for i in case["pop"]])
+    return dict(case, pop=DISTINCT7 if case["pop"] == "distinct7" else [VALUES[i] for i in case["pop"]])
 
 
 def _calib(case, cov, viol):
@@ -173,13 +180,16 @@ def _coverage(case, cov, viol):
 
     n = case["n"]
     alpha = case["alpha"]
-    pop = [VALUES[i] for i in case["pop"]]
+    pop = DISTINCT7 if case["pop"] == "distinct7" else [VALUES[i] for i in case["pop"]]
     w = 1000
     feats = [] if case["cov"] == "none" else ["x1"]
     covered = 0
     total = 0
     outcomes = Counter()
-    for perm in itertools.permutations(range(n + 1)):
+    chunk = case.get("chunk")
+    for pidx, perm in enumerate(itertools.permutations(range(n + 1))):
+        if chunk and pidx % chunk[1] != chunk[0]:
+            continue
         vals = [pop[i] for i in perm]
         rep_vals, out_val = vals[:n], vals[n]
         rep = pd.DataFrame(
@@ -218,6 +228,8 @@ def _coverage(case, cov, viol):
         outcomes[(lo, hi)] += 1
     cov["orderings"] += total
     need = Fraction(str(alpha)) * total
+    if chunk:
+        return total, len(set(pop)) > 1, (covered, total)
     if covered < need:
         viol(
             "coverage-below-alpha",
@@ -241,18 +253,34 @@ def evaluate(case):
         outcome = sha([v["sig"] for v in V] + [runs])
     else:
         runs, nontrivial, frac = _coverage(case, cov, viol)
-        outcome = f"{frac:.4f}"
         cov.pop("min_coverage_margin_permille", None)
+        if isinstance(frac, tuple):
+            return {"violations": V, "cov": dict(cov), "outcome": f"{frac[0]}/{frac[1]}", "nontrivial": nontrivial, "transitions": max(1, runs), "data": {"chunk": list(frac)}}
+        outcome = f"{frac:.4f}"
     return {"violations": V, "cov": dict(cov), "outcome": outcome, "nontrivial": nontrivial, "transitions": max(1, runs), "data": {"coverage": outcome} if case["kind"] == "coverage" else None}
 
 
 def post(cases, results, tier, seed):
     worst = {}
-    for c, r in zip(cases, results):
-        if c["kind"] == "coverage" and r.get("data"):
+    chunks = {}
+    viols = []
+    for i, (c, r) in enumerate(zip(cases, results)):
+        if c["kind"] != "coverage" or not r.get("data"):
+            continue
+        if "chunk" in r["data"]:
+            key = (c["pop"] if isinstance(c["pop"], str) else tuple(c["pop"]), c["cov"], c["alpha"], c["n"])
+            acc = chunks.setdefault(key, [0, 0, i])
+            acc[0] += r["data"]["chunk"][0]
+            acc[1] += r["data"]["chunk"][1]
+        else:
             f = float(r["data"]["coverage"])
             worst[c["alpha"]] = min(worst.get(c["alpha"], 1.0), f)
-    return {"cov": {f"min_coverage_permille_alpha_{a}": int(round(1000 * f)) for a, f in worst.items()}}
+    for (pop, covm, alpha, n), (covered, total, i) in chunks.items():
+        f = covered / total
+        worst[alpha] = min(worst.get(alpha, 1.0), f)
+        if covered < Fraction(str(alpha)) * total:
+            viols.append((i, {"sig": "C04:coverage-below-alpha", "from_post": True, "msg": f"population={DISTINCT7 if pop == 'distinct7' else [VALUES[j] for j in pop]} covariate={covm} alpha={alpha} n={n} (exactly the minimum): outstanding unit covered in {covered} of {total} orderings ({f:.4f}) < alpha"}))
+    return {"violations": viols, "cov": {f"min_coverage_permille_alpha_{a}": int(round(1000 * f)) for a, f in worst.items()}}
 
 
 REQUIRED_COUNTERS = {"calibration_checks": 10000, "orderings": 10000, "tied_scores": 1000, "weighted_differs_from_unweighted": 200, "negative_correction": 500}
